@@ -426,7 +426,7 @@ func (fd *Client) Query(ctx context.Context, input *dynamodb.QueryInput, opt ...
 	output := &dynamodb.QueryOutput{
 		Items:            mapTypesToDynamoSliceMapItem(items),
 		Count:            int32(count),
-		LastEvaluatedKey: mapTypesToDynamoMapItem(lastKey),
+		LastEvaluatedKey: mapLastEvaluatedKey(lastKey),
 	}
 
 	return output, nil
@@ -472,7 +472,7 @@ func (fd *Client) Scan(ctx context.Context, input *dynamodb.ScanInput, opt ...fu
 	output := &dynamodb.ScanOutput{
 		Items:            mapTypesToDynamoSliceMapItem(items),
 		Count:            int32(count),
-		LastEvaluatedKey: mapTypesToDynamoMapItem(lastKey),
+		LastEvaluatedKey: mapLastEvaluatedKey(lastKey),
 	}
 
 	return output, nil
@@ -865,4 +865,14 @@ func getMissingSubstrs(s string, substrs []string) []string {
 	}
 
 	return missingSubstrs
+}
+
+// mapLastEvaluatedKey maps the key a paginated read stopped at; a complete result has no
+// LastEvaluatedKey at all (nil, not an empty map: callers and the SDK paginators test for nil)
+func mapLastEvaluatedKey(lastKey map[string]*coretypes.Item) map[string]types.AttributeValue {
+	if len(lastKey) == 0 {
+		return nil
+	}
+
+	return mapTypesToDynamoMapItem(lastKey)
 }
